@@ -194,8 +194,8 @@ func TestHTTPScriptOutcomes(t *testing.T) {
 		start := time.Now()
 		b.SendMetricsAsync(env.Context(context.Background()), SampleMap(), rec.cb)
 		synctest.Wait()
-		// Backoff timers are durable blocks: the bubble's clock advances through the three failures by itself only
-		// when every goroutine is blocked, so step it.
+		// The bubble's clock only moves while every goroutine, this one included, is durably blocked: sleep in steps
+		// until the backoff timers and the client timeout have brought the fourth attempt.
 		for i := 0; i < 100 && env.HTTP.Len() < 4; i++ {
 			time.Sleep(500 * time.Millisecond)
 			synctest.Wait()
@@ -252,41 +252,58 @@ func TestHTTPScriptCancel(t *testing.T) {
 	})
 }
 
-// TestOTLPRetryBody documents what the body length check is for: otlp re-sends the same *http.Request.
+// TestOTLPRetryBody shows what DrainedPolicy is for: otlp re-sends the same *http.Request on every retry.
 func TestOTLPRetryBody(t *testing.T) {
-	synctest.Test(t, func(t *testing.T) {
-		env := NewEnv()
-		env.HTTP.Respond = func(a Attempt) Outcome {
-			if a.Seq == 0 {
-				return Status(503)
+	for _, pol := range []DrainedPolicy{DrainedRewind, DrainedFail, DrainedPass} {
+		synctest.Test(t, func(t *testing.T) {
+			env := NewEnv()
+			env.HTTP.Drained = pol
+			env.HTTP.Respond = func(a Attempt) Outcome {
+				if a.Seq == 0 {
+					return Status(503)
+				}
+				return OK()
 			}
-			return OK()
-		}
-		v, _ := ByName("otlp/AsGauge")
-		b, err := v.New(env)
-		if err != nil {
-			t.Fatal(err)
-		}
-		var rec cbRec
-		go b.SendMetricsAsync(env.Context(context.Background()), SampleMap(), rec.cb)
-		synctest.Wait()
-		for i := 0; i < 100; i++ {
-			if n, _ := rec.get(); n > 0 {
-				break
+			v, _ := ByName("otlp/AsGauge")
+			b, err := v.New(env)
+			if err != nil {
+				t.Fatal(err)
 			}
-			time.Sleep(500 * time.Millisecond)
+			var rec cbRec
+			go b.SendMetricsAsync(env.Context(context.Background()), SampleMap(), rec.cb)
 			synctest.Wait()
-		}
-		n, errs := rec.get()
-		as := env.HTTP.Attempts()
-		t.Logf("otlp after a 503: callback calls=%d errors=%v attempts=%d", n, errs, len(as))
-		for _, a := range as {
-			t.Logf("  #%d declared=%d sent=%d short=%v", a.Seq, a.ContentLength, len(a.Body), a.Short)
-		}
-		if n != 1 || len(as) < 2 {
-			t.Fatalf("callback calls = %d, attempts = %d", n, len(as))
-		}
-	})
+			for i := 0; i < 100; i++ { // sleeping lets the bubble's clock reach the backoff timers
+				if n, _ := rec.get(); n > 0 {
+					break
+				}
+				time.Sleep(500 * time.Millisecond)
+				synctest.Wait()
+			}
+			n, errs := rec.get()
+			as := env.HTTP.Attempts()
+			t.Logf("otlp after a 503, policy %d: callback calls=%d errors=%v attempts=%d", pol, n, errs, len(as))
+			for _, a := range as {
+				t.Logf("  #%d declared=%d body=%d short=%v rewound=%v", a.Seq, a.ContentLength, len(a.Body), a.Short, a.Rewound)
+			}
+			if n != 1 || len(as) < 2 || !as[1].Short {
+				t.Fatalf("callback calls = %d, attempts = %d", n, len(as))
+			}
+			switch pol {
+			case DrainedRewind:
+				if len(errs) != 0 || len(as) != 2 || !as[1].Rewound || string(as[1].Body) != string(as[0].Body) {
+					t.Fatalf("rewind: errors = %v, attempts = %d", errs, len(as))
+				}
+			case DrainedFail:
+				if len(errs) != 1 || len(as) != 4 || !strings.Contains(errs[0].Error(), "ContentLength=") {
+					t.Fatalf("fail: errors = %v, attempts = %d", errs, len(as))
+				}
+			case DrainedPass:
+				if len(errs) != 0 || len(as) != 2 || len(as[1].Body) != 0 {
+					t.Fatalf("pass: errors = %v, attempts = %d", errs, len(as))
+				}
+			}
+		})
+	}
 }
 
 // TestConnScriptOutcomes: refused dials, a failing write, a short write, a stalled write hitting its deadline.
@@ -391,4 +408,55 @@ func TestCloudwatchOutcome(t *testing.T) {
 			t.Fatalf("callback calls = %d, errors = %v, calls = %d", n, errs, len(env.CW.Calls()))
 		}
 	})
+}
+
+// TestNeedsRun checks Variant.NeedsRun: without Run, exactly the variants that need it never call back.
+func TestNeedsRun(t *testing.T) {
+	for _, v := range Variants() {
+		synctest.Test(t, func(t *testing.T) {
+			env := NewEnv()
+			defer env.Close()
+			b, err := v.New(env)
+			if err != nil {
+				t.Fatal(err)
+			}
+			var rec cbRec
+			go b.SendMetricsAsync(env.Context(context.Background()), SampleMap(), rec.cb)
+			time.Sleep(time.Minute)
+			synctest.Wait()
+			if n, _ := rec.get(); (n == 0) != v.NeedsRun || n > 1 {
+				t.Fatalf("%s: NeedsRun = %v but callback calls without Run = %d", v.Name, v.NeedsRun, n)
+			}
+		})
+	}
+}
+
+// TestNativeClientTimeout: with NativeClientTimeout the limit is http.Client.Timeout itself.
+func TestNativeClientTimeout(t *testing.T) {
+	for _, native := range []bool{false, true} {
+		synctest.Test(t, func(t *testing.T) {
+			env := NewEnv()
+			env.NativeClientTimeout = native
+			env.ClientTimeout = 2 * time.Second
+			env.MaxRequestElapsedTime = time.Second
+			env.HTTP.Respond = func(Attempt) Outcome { return Hang() }
+			v, _ := ByName("newrelic/insights")
+			b, err := v.New(env)
+			if err != nil {
+				t.Fatal(err)
+			}
+			var rec cbRec
+			start := time.Now()
+			b.SendMetricsAsync(env.Context(context.Background()), SampleMap(), rec.cb)
+			time.Sleep(2*time.Second + time.Millisecond)
+			synctest.Wait()
+			n, errs := rec.get()
+			// net/http appends "(Client.Timeout exceeded ...)" only when its timer goroutine has run before the context
+			// deadline is noticed; both are due at the same instant, so the native wording varies.
+			if n != 1 || len(errs) != 1 || !strings.Contains(errs[0].Error(), "context deadline exceeded") {
+				t.Fatalf("native=%v: callback calls = %d, errors = %v", native, n, errs)
+			}
+			t.Logf("native=%v after %v: %v", native, time.Since(start), errs[0])
+		})
+	}
 }
